@@ -43,6 +43,12 @@ var (
 func handler(c fox.Context) {
 	hits++
 	lastPat = c.Pattern()
+	observe(c)
+	if inHandler != nil {
+		f := inHandler
+		inHandler = nil
+		f(c)
+	}
 }
 
 type nopWriter struct{ h http.Header }
@@ -419,12 +425,13 @@ func main() {
 	debug.SetGCPercent(-1)
 
 	cs := &hx.Cases{
-		Header: "From FoxBase Require Import Bytes.\nFrom FoxRoute Require Import Node Lookup Tree Alloc.\n",
-		Type:   "acase",
-		Footer: "Definition mism := Eval vm_compute in a_mismatches cases.\nPrint mism.\n" +
-			"Definition viol := Eval vm_compute in a_violations cases.\nPrint viol.\n" +
-			"Definition oof := Eval vm_compute in a_fuel_outs cases.\nPrint oof.\n" +
-			"Definition coldgrowth := Eval vm_compute in a_cold_growth cases.\nPrint coldgrowth.\n",
+		Header: "From FoxBase Require Import Bytes.\nFrom FoxRoute Require Import Node Lookup Tree Alloc AllocHist.\n",
+		Type:   "xcase",
+		Footer: "Definition mism := Eval vm_compute in x_mismatches cases.\nPrint mism.\n" +
+			"Definition viol := Eval vm_compute in x_violations cases.\nPrint viol.\n" +
+			"Definition oof := Eval vm_compute in x_fuel_outs cases.\nPrint oof.\n" +
+			"Definition coldgrowth := Eval vm_compute in x_cold_growth cases.\nPrint coldgrowth.\n" +
+			"Definition notowned := Eval vm_compute in x_not_owned cases.\nPrint notowned.\n",
 	}
 	st := &hx.Stats{Rule: "route sets: random (rt.Pattern: static, {x}, mid-segment a{x}, suffix/infix *{w}, hostnames with label params, 1-3 methods), " +
 		"ladder (static spine of depth 2-6 with a {p} and a *{w} alternative at every level: deep backtracking, skipped-node stack), " +
@@ -442,6 +449,26 @@ func main() {
 	seen := map[string]bool{}
 	nontrivial := 0
 	worst := uint64(0)
+	// directed histories (every way to obtain a context x every kind of write x both orders), then per route set
+	hrnd := hx.NewRand(mixSeed(hx.Seed() ^ 0xC16A)) // own stream: the histories do not shift the other generators
+	nhist := 2
+	if tier == "thorough" {
+		nhist = 4
+	}
+	ev := &env{cs: cs, st: st, w: w, seen: seen}
+	dsets, dhs := directedHistories()
+	for di, rs := range dsets {
+		runtime.GC()
+		fd, _ := build(rs)
+		dump := fd.VerifDump()
+		def := fmt.Sprintf("hw%d", di)
+		for k, h := range dhs[di] {
+			for _, q := range rs.fixed {
+				ev.historyCase(rs, def, rt.RootsTerm(dump, nil), dump.String(), fmt.Sprintf("hw%dh%d", di, k), h, q)
+			}
+		}
+	}
+	nontrivial, worst = ev.nontrivial, ev.worst
 	for si := 0; si < nsets; si++ {
 		runtime.GC()
 		var rs *routeSet
@@ -481,6 +508,7 @@ func main() {
 
 			// cold: fresh router, one call
 			fc, _ := build(rs)
+			resetObs(fc)
 			cd := fc.VerifDump()
 			if cd.String() != dump.String() {
 				fmt.Fprintln(os.Stderr, "c16: rebuilt router differs from the first build")
@@ -494,6 +522,7 @@ func main() {
 			// warm: shared router
 			lo := rt.Lookup(fw, method, host, path)
 			hits, lastPat = 0, ""
+			cur = fw
 			panicked := false
 			for i := 0; i < warmup && !panicked; i++ {
 				panicked = serve(fw, w, req)
@@ -540,12 +569,13 @@ func main() {
 			if matched {
 				pat = lastPat
 			}
-			term := fmt.Sprintf("{| a_roots := %s; a_maxparams := %s; a_depth := %s; a_method := %s; a_rawhost := %s; a_host := %s; a_path := %s; "+
-				"a_match := %s; a_tsr := %s; a_pattern := %s; a_cold := (%s, %s, %s); a_warm := %s; a_allocs := %s |}",
+			term := fmt.Sprintf("{| x_base := {| a_roots := %s; a_maxparams := %s; a_depth := %s; a_method := %s; a_rawhost := %s; a_host := %s; a_path := %s; "+
+				"a_match := %s; a_tsr := %s; a_pattern := %s; a_cold := (%s, %s, %s); a_warm := %s; a_allocs := %s |}; x_handed := %s |}",
 				def, hx.Nat(int(cd.MaxParams)), hx.Nat(int(cd.Depth)), hx.Bytes(method), hx.Bytes(host), hx.Bytes(fox.VerifStripHostPort(host)), hx.Bytes(path),
-				hx.Bool(matched), hx.Bool(matched && lo.Tsr), hx.Bytes(pat), hx.Bool(gp), hx.Bool(gt), hx.Bool(gs), hx.Bool(warmGrow), hx.N(allocs))
-			human := fmt.Sprintf("routes=%v ignoreTrailingSlash=%v request: %s Host=%q path=%q => matched=%v pattern=%q tsr=%v allocs/op=%d (after %d warm-up calls) cold-growth(params,tsrParams,skipNds)=(%v,%v,%v) caps=(%d,%d) warm-growth=%v%s",
-				fmtEntries(ok), rs.ignoreTS, method, host, path, matched, pat, lo.Tsr, allocs, warmup, gp, gt, gs, cd.MaxParams, cd.Depth, warmGrow, inter)
+				hx.Bool(matched), hx.Bool(matched && lo.Tsr), hx.Bytes(pat), hx.Bool(gp), hx.Bool(gt), hx.Bool(gs), hx.Bool(warmGrow), hx.N(allocs), handedTerm())
+			human := fmt.Sprintf("routes=%v ignoreTrailingSlash=%v request: %s Host=%q path=%q => matched=%v pattern=%q tsr=%v allocs/op=%d (after %d warm-up calls) cold-growth(params,tsrParams,skipNds)=(%v,%v,%v) caps=(%d,%d) warm-growth=%v%s; %s",
+				fmtEntries(ok), rs.ignoreTS, method, host, path, matched, pat, lo.Tsr, allocs, warmup, gp, gt, gs, cd.MaxParams, cd.Depth, warmGrow, inter, handedHuman())
+			cur = nil
 			cs.AddWithDef(def, tree, term, human)
 			st.Count("set:" + rs.kind)
 			st.Count("request:" + kind)
@@ -634,6 +664,15 @@ func main() {
 		for _, q := range rs.fixed {
 			runCase(q[0], q[1], q[2], "fixed", "fixed")
 		}
+		// histories ending in this route set: a context in flight across a write (history.go)
+		ev.nontrivial, ev.worst = nontrivial, worst
+		for k := 0; k < nhist; k++ {
+			h := genHistory(hrnd, ok, rs.ignoreTS)
+			for _, q := range historyRequests(hrnd, h, ok) {
+				ev.historyCase(rs, def, tree, dump.String(), fmt.Sprintf("t%dh%d", si, k), h, q)
+			}
+		}
+		nontrivial, worst = ev.nontrivial, ev.worst
 	}
 	st.Evaluations = cs.Len()
 	st.DistinctNontrivial = nontrivial
@@ -643,7 +682,8 @@ func main() {
 	}
 	hx.Fatal(cs.Write(out, shards))
 	hx.Fatal(st.Write(out))
-	fmt.Printf("c16: %d cases, %d matched, worst allocs/op %d\n", cs.Len(), nontrivial, worst)
+	st.Extra["history_cases"] = ev.nhist
+	fmt.Printf("c16: %d cases (%d history cases), %d matched, worst allocs/op %d\n", cs.Len(), ev.nhist, nontrivial, worst)
 }
 
 // newRequest is rt.NewRequest, except that a path containing '%' that unescapes cleanly is sent the way
